@@ -88,14 +88,17 @@ def run(tier, seed, replay=None):
                     prev = rec
                     continue
                 a, b = state_sig(prev), state_sig(rec)
+                # balloons: what matters for K9 is the phase in which the update failed, not what the generator meant:
+                # a capacity failure while the new balloons are being created is 'unsatisfiable' whatever the tag
+                bkind = 'unsatisfiable' if re.search(r'not enough free CPUs|resize/inflate|failed to create balloon', rec['reply'].get('msg') or '') else tag.split(':')[-1]
                 if not ok:
                     d = first_diff(a, b)
                     if d:
-                        viol(sc, F('C13', 'rejected-is-noop', '%s:rejected-update-changed-state:%s' % (pol, tag.split(':')[-1] if pol == 'bln' else 'revert-replaces'), 'rejected configuration (%s) changed %s' % (tag, d), rec['seq']))
+                        viol(sc, F('C13', 'rejected-is-noop', '%s:rejected-update-changed-state:%s' % (pol, bkind if pol == 'bln' else 'revert-replaces'), 'rejected configuration (%s) changed %s' % (tag, d), rec['seq']))
                     if rec['reply'].get('pushed'):
                         changed = [u for u in rec['reply']['pushed'] if any(u.get(f) is not None and u.get(f) != a['cache'].get(u['id'], (None,) * 7)[i] for i, f in enumerate(RES))]
                         if changed:
-                            viol(sc, F('C13', 'rejected-is-noop', '%s:rejected-update-pushed-changes:%s' % (pol, tag.split(':')[-1] if pol == 'bln' else 'revert-replaces'), 'rejected configuration (%s) pushed %s' % (tag, changed[:2]), rec['seq']))
+                            viol(sc, F('C13', 'rejected-is-noop', '%s:rejected-update-pushed-changes:%s' % (pol, bkind if pol == 'bln' else 'revert-replaces'), 'rejected configuration (%s) pushed %s' % (tag, changed[:2]), rec['seq']))
                 elif tag == 'same':
                     for cid, v in a['cache'].items():
                         if cid in b['cache'] and b['cache'][cid] != v:
